@@ -132,3 +132,12 @@ package resource
 //@ func ParsePhase
 //@   props C18
 //@   pure
+
+// Selector evaluation is used through these frame contracts by the store; its functional
+// specification is C14's.
+//@ func (IDQuery).Matches
+//@   props C14
+//@   pure
+//@ func (LabelQueries).Matches
+//@   props C14
+//@   pure
